@@ -704,8 +704,9 @@ def replay_known(ctx, fields: List[str]):
                 ctx.violation(key=key, what=v["what"], case=v["case"], observed=v.get("observed"), how=v.get("how", ""))
 
 
-def replay_input(ctx, inp: Dict[str, Any], base: Optional[Baseline], fields: List[str]):
-    """Re-run one recorded case on the real code; returns (rc, violation or None)."""
+def prepare_input(ctx, inp: Dict[str, Any], base: Optional["Baseline"], fields: List[str]):
+    """Run one recorded case on the real code. Returns (driver requests, judge) where
+    judge(answers) -> violation record or None; or (None, verdict) when no driver call is needed."""
     stream = inp.get("stream")
     if stream == "A":
         import vlib
@@ -714,28 +715,66 @@ def replay_input(ctx, inp: Dict[str, Any], base: Optional[Baseline], fields: Lis
         try:
             out = real_render(vlib.REPO / e["dir"], e["files"], inp["lists"], via_file=True)
         except Exception as ex:
-            return 1, {"what": "jinja2 cannot render: " + str(ex)[:200], "case": inp, "observed": None}
-        s = ctx.driver(DRIVER, [{"op": "spec_info", "backend": inp["backend"], "lists": inp["lists"], "files": out}])[0]
-        if s.get("holds"):
-            return 0, None
-        return 1, {"what": "rendered file violates the layout specification: " + str(s.get("why")), "case": inp, "observed": {k: v for k, v in out.items() if k in str(s.get("why"))}}
+            return None, {"what": "jinja2 cannot render: " + str(ex)[:200], "case": inp, "observed": None}
+
+        def judge_a(ans):
+            s = ans[0]
+            if s.get("holds") or "bad" in s:
+                return None
+            return {"what": "rendered file violates the layout specification: " + str(s.get("why")), "case": inp, "observed": {k: v for k, v in out.items() if k in str(s.get("why"))}}
+
+        return [{"op": "spec_info", "backend": inp["backend"], "lists": inp["lists"], "files": out}], judge_a
     if stream == "B":
         r = real_process(inp["mds"], fields)
         mm = [md_to_model(m) for m in inp["mds"]]
-        s = ctx.driver(DRIVER, [{"op": "spec_process", "mds": mm, "outcome": {"ok": r["ok"]} if "ok" in r else {"refused": True}}])[0]
-        if s.get("holds"):
-            return 0, None
-        return 1, {"what": "process_metadata violates the block specification: " + str(s.get("why")), "case": inp, "observed": r}
+
+        def judge_b(ans):
+            s = ans[0]
+            if s.get("holds") or "bad" in s:
+                return None
+            return {"what": "process_metadata violates the block specification: " + str(s.get("why")), "case": inp, "observed": r}
+
+        return [{"op": "spec_process", "mds": mm, "outcome": {"ok": r["ok"]} if "ok" in r else {"refused": True}}], judge_b
     if stream == "C":
         if base is None:
             base = Baseline(ctx, fields)
         c = pipeline_case(ctx, base, inp["backend"], inp["mds"], inp.get("query", QUERIES[inp["backend"]][0]))
         if c["base"] is None:
-            return 1, {"what": "the package generated without inject_code blocks cannot be read back against its templates", "case": inp, "observed": None}
-        ans = ctx.driver(DRIVER, pipeline_requests(c))
-        v = judge_pipeline(ctx, c, ans[0], ans[1], report=False)
-        return (0, None) if v is None else (1, v)
-    return 2, None
+            return None, {"what": "the package generated without inject_code blocks cannot be read back against its templates", "case": inp, "observed": None}
+
+        def judge_c(ans):
+            if "bad" in ans[1]:
+                return None
+            return judge_pipeline(ctx, c, ans[0], ans[1], report=False)
+
+        return pipeline_requests(c), judge_c
+    return None, None
+
+
+def replay_inputs(ctx, inps: List[Dict[str, Any]], base: Optional["Baseline"], fields: List[str]) -> List[Optional[Dict[str, Any]]]:
+    """Many cases, one driver call. Returns a violation record (or None) per case."""
+    prepared = [prepare_input(ctx, i, base, fields) for i in inps]
+    reqs: List[Dict[str, Any]] = []
+    spans = []
+    for r, j in prepared:
+        if r is None:
+            spans.append(None)
+        else:
+            spans.append((len(reqs), len(reqs) + len(r)))
+            reqs.extend(r)
+    ans = ctx.driver(DRIVER, reqs)
+    out = []
+    for (r, j), sp in zip(prepared, spans):
+        out.append(j if sp is None else j(ans[sp[0]:sp[1]]))
+    return out
+
+
+def replay_input(ctx, inp: Dict[str, Any], base: Optional["Baseline"], fields: List[str]):
+    """Re-run one recorded case on the real code; returns (rc, violation or None)."""
+    if inp.get("stream") not in ("A", "B", "C"):
+        return 2, None
+    v = replay_inputs(ctx, [inp], base, fields)[0]
+    return (0, None) if v is None else (1, v)
 
 
 def run(ctx):
@@ -928,17 +967,16 @@ def shrink_candidates(inp: Dict[str, Any]) -> List[Dict[str, Any]]:
 
 
 def shrink(ctx, inp: Dict[str, Any], base: Baseline, fields: List[str]) -> Dict[str, Any]:
-    """Greedy structural shrinking while the Spec still fails on the real code."""
-    for _ in range(60):
-        for cand in shrink_candidates(inp):
-            if cand["stream"] != "A" and not same_script_names_ok(cand["mds"]):
-                continue
-            rc, v = replay_input(ctx, cand, base, fields)
-            if v is not None:
-                inp = cand
-                break
-        else:
+    """Greedy structural shrinking while the Spec still fails on the real code (one driver call per round)."""
+    for _ in range(40):
+        cands = [c for c in shrink_candidates(inp) if c["stream"] == "A" or same_script_names_ok(c["mds"])][:60]
+        if not cands:
             break
+        vs = replay_inputs(ctx, cands, base, fields)
+        hit = next((c for c, v in zip(cands, vs) if v is not None), None)
+        if hit is None:
+            break
+        inp = hit
     return inp
 
 
